@@ -21,6 +21,7 @@ using namespace sim;
 
 static void guardHostDepthReset();
 static uint64_t threadsCreatedCount = 0;
+static bool semTimedwaitMissing = false;
 namespace {
 struct Mx { bool inited, destroyed, recursive; int owner, depth; std::vector<int> waiters; };
 struct Cv { bool destroyed; std::vector<int> waiters; };
@@ -33,7 +34,7 @@ std::vector<Th*> ths;
 uint64_t cond_after_destroy = 0;
 int nproc_knob = 4;
 
-void resetSync() { threadsCreatedCount = 0; guardHostDepthReset(); mxs.clear(); cvs.clear(); sms.clear(); for (Th* t : ths) delete t; ths.clear(); cond_after_destroy = 0; }
+void resetSync() { threadsCreatedCount = 0; semTimedwaitMissing = false; guardHostDepthReset(); mxs.clear(); cvs.clear(); sms.clear(); for (Th* t : ths) delete t; ths.clear(); cond_after_destroy = 0; }
 struct Reg { Reg() { addResetHook(resetSync); } } reg;
 
 struct HostG { HostG() { g_host_depth_export++; } ~HostG() { g_host_depth_export--; } };
@@ -80,7 +81,7 @@ int64_t tsToMono(const struct timespec* ts, clockid_t clk) {
 }
 }
 
-namespace sim { uint64_t threadsCreated() { return threadsCreatedCount; } uint64_t threadsNotJoined() { uint64_t n = 0; for (Th* t : ths) if (!t->joined) n++; return n; } void setProcessorCount(int n) { nproc_knob = n; } uint64_t condOpsAfterDestroy() { return cond_after_destroy; } }
+namespace sim { uint64_t threadsCreated() { return threadsCreatedCount; } uint64_t threadsNotJoined() { uint64_t n = 0; for (Th* t : ths) if (!t->joined) n++; return n; } void setProcessorCount(int n) { nproc_knob = n; } void setSemTimedwaitMissing(bool m) { semTimedwaitMissing = m; } uint64_t condOpsAfterDestroy() { return cond_after_destroy; } }
 
 extern "C" {
 
@@ -93,6 +94,10 @@ int __wrap_pthread_mutex_init(pthread_mutex_t* p, const pthread_mutexattr_t* a) 
   mxs[p] = m;
   return 0;
 }
+// attribute objects are plain memory, but initialising and setting them are steps another thread can interleave with
+int __wrap_pthread_mutexattr_init(pthread_mutexattr_t* a) { if (inTask()) { HostG h; chargeCall(); yieldSync(); } return pthread_mutexattr_init(a); }
+int __wrap_pthread_mutexattr_settype(pthread_mutexattr_t* a, int t) { if (inTask()) { HostG h; chargeCall(); yieldSync(); } return pthread_mutexattr_settype(a, t); }
+int __wrap_pthread_mutexattr_destroy(pthread_mutexattr_t* a) { if (inTask()) { HostG h; chargeCall(); yieldSync(); } return pthread_mutexattr_destroy(a); }
 int __wrap_pthread_mutex_destroy(pthread_mutex_t* p) {
   if (!inTask()) return pthread_mutex_destroy(p);
   HostG h; yieldSync();
@@ -226,6 +231,7 @@ int __wrap_sem_trywait(sem_t* s) { if (!inTask()) return sem_trywait(s); HostG h
 int __wrap_sem_timedwait(sem_t* s, const struct timespec* ts) {
   if (!inTask()) return sem_timedwait(s, ts);
   HostG h;
+  if (semTimedwaitMissing) { chargeCall(); yieldSync(); fault("sem_timedwait_enosys"); errno = ENOSYS; return -1; }   /* configuration: a platform without sem_timedwait (the library has a polling fallback for it) */
   if (ts->tv_nsec < 0 || ts->tv_nsec >= 1000000000L) { errno = EINVAL; return -1; }
   return semWait(s, tsToMono(ts, CLOCK_REALTIME), false);
 }
